@@ -1,6 +1,7 @@
 package main
 
 import (
+	"os"
 	"fmt"
 	"go/types"
 	"path/filepath"
@@ -612,6 +613,11 @@ func (e *Engine) concretizeTerm(t *Term) Value {
 			inner = inner.args[0]
 		}
 		if inner.w == 0 || inner.w > 8 {
+			if os.Getenv("VERIF_DEBUG") != "" {
+				for i := len(e.stack) - 1; i >= 0 && i > len(e.stack)-12; i-- {
+					fmt.Println("  stack", i, e.stack[i].fn.String())
+				}
+			}
 			panic(pathEnd{kind: "unsupported", msg: "concretize of wide non-table term"})
 		}
 		for v := uint64(0); v <= mask(inner.w); v++ {
